@@ -29,7 +29,8 @@ RULE = ("histories = 1-2 batch_run calls (sometimes the very same call twice) on
         "max_steps x period; churn between collects; all pairs of parameter shapes), 40 cases of churn between collects, 40 cases of "
         "explicit collection patterns (gaps and duplicates), 6 SCALE cases (max_steps 255/256/257/258/300/512/1000 with periods 1, 2, 7, 50, "
         "64, 100, 128, 256, 257, 300, -1 and early stops at 256..512 on tiny models; designs of 200-600 runs; scalar parameters as numpy "
-        "scalars and bools); 4 (quick) / "
+        "scalars and bools), 24 cases with USER CLASSES as parameter values (sequence-protocol only, __iter__ only, one-shot iterator, both, "
+        "mapping-like: swept element by element / key by key; str subclass and sized-but-not-iterable object incl. a falsy one: one value); 4 (quick) / "
         "40 (thorough) calls with number_processes 2-3 run in a helper process and compared with the serial call and row by row "
         "with their run; the multiset of rows is observed; non-trivial = at least 2 rows; distinct = by SHA1")
 TRUSTED_BASE = [
@@ -106,7 +107,7 @@ def _gen_op(rng, objects, nproc=1):
     size = 1
     for n in names:
         p = _gen_param(rng, n, objects)
-        k = 1 if p[1] in ("scalar", "str", "np0", "npscalar", "bool") else (len(range(*p[2])) if p[1] == "range" else len(p[2]))
+        k = 1 if p[1] in ("scalar", "str", "np0", "npscalar", "bool", "strsub", "lenonly") else (len(range(*p[2])) if p[1] == "range" else len(p[2]))
         if size * max(k, 1) > 12:
             p = [n, "scalar", 1] if n not in ("tag", "obj") else None
         else:
@@ -141,6 +142,10 @@ def gen_cases(rng, tier):
     # periods 1, dividing, not dividing, -1 and early stops beyond 256; tiny models, one iteration; and designs with hundreds
     # of combinations x iterations; scalar parameters as numpy scalars / bools
     cases += _scale_cases(rng, 6 if tier == "quick" else 60)
+    # USER CLASSES as parameter values (harness/USERCODE_NOTE.md B): sequence-protocol only, __iter__ only, one-shot iterator,
+    # both, mapping-like (swept element by element / key by key); str subclass, sized-but-not-iterable object (one value)
+    for j in range(24 if tier == "quick" else 240):
+        cases.append(_usercls_case(rng, nproc=2 if j == 0 else 1))
     for j in range(40 if tier == "quick" else 400):
         L = rng.randint(3, 6)
         params = [["pat", "list", [_gen_pattern(rng, L) for _ in range(rng.randint(3, 6))]], ["ar", "scalar", rng.choice([1, 1, 0])],
@@ -191,6 +196,33 @@ def _scale_cases(rng, count, big=1):
     return out
 
 
+def _usercls_case(rng, nproc=1):
+    objects = ["a", "bc", "relu"]
+    dom = {"n": [0, 1, 2, 3], "ic": [0, 1, 2], "sc": [0, 1, 2], "ar": [0, 1], "k": [0, 1, 7], "churn": [0, 1]}
+    names = rng.sample(sorted(dom), rng.randint(1, 3))
+    params = []
+    for nm in names:
+        kind = rng.choice(["seqproto", "seqproto", "iteronly", "oneshot", "both", "mapping", "scalar", "list"])
+        if kind == "scalar":
+            params.append([nm, "scalar", rng.choice(dom[nm])])
+        elif kind == "mapping":
+            params.append([nm, kind, rng.sample(dom[nm], rng.randint(1, min(3, len(dom[nm]))))])   # keys are distinct
+        else:
+            params.append([nm, kind, [rng.choice(dom[nm]) for _ in range(rng.choice([0, 1, 2, 2, 3]) if rng.random() < 0.1 else rng.randint(1, 3))]])
+    p = rng.random()
+    if p < 0.35:
+        params.append(["tag", "strsub", 1000 + rng.randrange(3)])
+    elif p < 0.7:
+        params.append(["obj", "lenonly", 2000 + rng.randrange(9)])
+    elif p < 0.85:
+        params.append(["tag", rng.choice(["seqproto", "iteronly", "both"]), [1000 + rng.randrange(3) for _ in range(2)]])
+    rng.shuffle(params)
+    # FINDING on HEAD (reported, not generated): batch_run calls _make_model_kwargs(parameters) once per iteration, so a one-shot
+    # iterator (generator) given as a parameter value is exhausted after iteration 0 and iterations 1.. run nothing
+    iterations = 1 if any(p_[1] == "oneshot" for p_ in params) else rng.choice([1, 1, 2])
+    return {"objects": objects, "ops": [["batch", params, iterations, rng.choice([1, 2, 3]), rng.choice([-1, 1, 2]), nproc, False]]}
+
+
 def _gen_pattern(rng, L, most=8):
     """a collection pattern over steps 0..L as a base-4 number: digit s = number of collects at step s (0 = a gap)"""
     while True:
@@ -239,9 +271,12 @@ def enumerate_cases(tier, broken=False):
             yield c
     # designs: all shapes of two parameters
     shapes = [["scalar", 1], ["list", [0, 1]], ["tuple", [2]], ["range", [0, 3, 1]], ["range", [1, 1, 1]], ["list", []], ["list", [1, 1]],
-              ["np0", 2], ["np1", [0, 1]], ["np1", []]]
+              ["np0", 2], ["np1", [0, 1]], ["np1", []], ["seqproto", [0, 1, 2]], ["seqproto", []], ["iteronly", [1, 0]], ["oneshot", [2, 1]],
+              ["both", [0, 2]], ["mapping", [1, 2]], ["npscalar", 2], ["bool", 1]]
     for a, b in itertools.product(shapes, repeat=2):
         for it in (1, 2):
+            if it == 2 and "oneshot" in (a[0], b[0]):
+                continue        # see the finding in _usercls_case
             yield {"objects": ["s"], "ops": [["batch", [["n", *a], ["k", *b], ["tag", "str", 1000]], it, 2, 1, 1]]}
 
 
@@ -249,6 +284,10 @@ def enumerate_cases(tier, broken=False):
 def _decode(code, objects):
     if code == -1:
         return None
+    if code >= 2000:                       # a LenOnly user object (length code % 3: also a falsy one of length 0)
+        from props.batch_models import LenOnly
+
+        return LenOnly(code, code % 3)
     if code >= 1000:
         return objects[code - 1000]
     return code
@@ -278,6 +317,17 @@ def _py_params(params, objects):
         elif kind == "np1":
             import numpy as np
             out[name] = np.array(payload, dtype=int)  # 1-d array: its elements (numpy ints); may be empty -> no runs
+        elif kind in ("seqproto", "iteronly", "oneshot", "both", "mapping"):
+            from props import batch_models as bm
+
+            items = [_decode(c, objects) for c in payload]
+            out[name] = {"seqproto": bm.SeqProto, "iteronly": bm.IterOnly, "both": bm.Both, "mapping": bm.MappingLike,
+                         "oneshot": lambda it: iter(list(it))}[kind](items)    # swept element by element (mapping: its keys)
+        elif kind == "strsub":
+            from props.batch_models import StrSub
+            out[name] = StrSub(objects[payload - 1000])   # a str subclass: one value
+        elif kind == "lenonly":
+            out[name] = _decode(payload, objects)          # sized but not iterable: one value
         else:
             raise ValueError(kind)
     return out
@@ -290,8 +340,10 @@ def _values(p, objects):
         return [payload]
     if kind in ("list", "tuple"):
         return list(payload) if payload else None
-    if kind == "np1":
+    if kind in ("np1", "seqproto", "iteronly", "oneshot", "both", "mapping"):
         return list(payload)
+    if kind in ("strsub", "lenonly"):
+        return [payload]
     return list(range(*payload))
 
 
@@ -340,6 +392,10 @@ def _code(v, objects, name):
         return -1
     if isinstance(v, bool) and name not in ("tag", "obj"):
         return int(v)              # a bool given for a parameter the model reads as an int
+    if type(v).__name__ == "LenOnly":
+        return v.code
+    if isinstance(v, str) and type(v) is not str:
+        v = str(v)                 # a str subclass echoes as its text
     if isinstance(v, int) and not isinstance(v, bool) and name not in ("tag", "obj"):
         return v
     for i, o in enumerate(objects):
@@ -562,8 +618,10 @@ def _c_pspec(p):
         return f"PSingle {L.z(payload)}"
     if kind in ("list", "tuple"):
         return f"PMany {L.zlist(payload)}" if payload else "PEmptySeq"
-    if kind == "np1":
+    if kind in ("np1", "seqproto", "iteronly", "oneshot", "both", "mapping"):
         return f"PMany {L.zlist(payload)}"
+    if kind in ("strsub", "lenonly"):
+        return f"PSingle {L.z(payload)}"
     return f"PMany {L.zlist(list(range(*payload)))}"
 
 
